@@ -98,8 +98,14 @@ pub fn build_object<'a, K: AsRef<str>>(
     let mut key_data = Vec::new();
     let mut val_data = Vec::new();
     let mut val_jentries = VecDeque::new();
-    for (key, value) in items.into_iter() {
-        let key = key.as_ref();
+    // the keys of a `JSONB` object must be sorted and unique,
+    // if there are duplicate keys, the last one wins.
+    let items: Vec<(K, &'a [u8])> = items.into_iter().collect();
+    let mut sorted_items = BTreeMap::new();
+    for (key, value) in items.iter() {
+        sorted_items.insert(key.as_ref(), *value);
+    }
+    for (key, value) in sorted_items.into_iter() {
         // write key jentry and key data
         let encoded_key_jentry = (STRING_TAG | key.len() as u32).to_be_bytes();
         buf.extend_from_slice(&encoded_key_jentry);
